@@ -4,6 +4,7 @@ import importlib
 import os
 import pathlib
 import random
+import shutil
 import sys
 import sysconfig
 import tempfile
@@ -102,8 +103,28 @@ def run(ctx):
         os.environ.pop("MONKEYTYPE_TRACE_MODULES", None)
         mconfig.default_code_filter.cache_clear()
     finally:
-        import shutil
         shutil.rmtree(tmp, ignore_errors=True)
+    # ---- the allow-list names modules / packages, not directories: a module reached through a directory that merely *is named* like a listed name
+    H.section("allow-list vs directory names", "a user module imported as `mod17` from <tmp>/<dir>/ with the allow-list naming <dir> (neither the module nor a package of it), and the same with the allow-list naming the module",
+              "2 allow-lists")
+    tmp2 = tempfile.mkdtemp(prefix="c17d_")
+    try:
+        d_ = os.path.join(tmp2, "vendor17")
+        os.makedirs(d_)
+        code17 = compile("def g17():\n    return 317\n", os.path.join(d_, "mod17.py"), "exec").co_consts[0]
+        for allow, want in ((["mod17"], True), (["vendor17"], False)):
+            os.environ["MONKEYTYPE_TRACE_MODULES"] = ",".join(allow)
+            mconfig.default_code_filter.cache_clear()
+            got = mconfig.default_code_filter(code17)
+            if got == want:
+                H.ok("dir-vs-module|%s" % allow, sample={"allow_list": allow, "traced": got})
+            else:
+                H.violation("monkeytype.config:default_code_filter", "C17-allow-list-matches-directory|%s" % allow, "the module allow-list admits a file because a *directory* on its path is named like a listed name",
+                            {"co_filename": "<tmp>/vendor17/mod17.py", "module": "mod17", "allow_list": allow}, got, want)
+    finally:
+        os.environ.pop("MONKEYTYPE_TRACE_MODULES", None)
+        mconfig.default_code_filter.cache_clear()
+        shutil.rmtree(tmp2, ignore_errors=True)
     H.section("equal code objects in different files", "the same function text at the same line in a library file and in a user file (code objects compare equal)", "1 pair, both orders")
     std = sysconfig.get_path("stdlib")
     a = compile(src, os.path.join(std, "zz_c17.py"), "exec").co_consts[0]
@@ -166,7 +187,6 @@ def run(ctx):
                 H.violation("monkeytype.tracing:CallTracer.__call__", "twin-filter:%s:%s" % (order, files), "a custom filter's verdict is not applied per call: equal code objects in different files are conflated",
                             {"order": list(order)}, files, ["alpha"])
     finally:
-        import shutil
         shutil.rmtree(tdir, ignore_errors=True)
     # __main__ is never stored
     H.section("__main__", "traces of functions whose module is __main__ never reach the store", "2 functions")
